@@ -16,6 +16,9 @@ pub struct TokenBuffer<'t> {
     tokens: Vec<Token<'t>>,
     last_token_location: u32,
     last_token_number: TokenNumber,
+    /// Line and column at which the last added token ended (1-based)
+    last_token_end_line: u32,
+    last_token_end_column: u32,
 }
 
 impl<'t> TokenBuffer<'t> {
@@ -25,7 +28,20 @@ impl<'t> TokenBuffer<'t> {
             tokens: Vec::new(),
             last_token_location: 0,
             last_token_number: 0,
+            last_token_end_line: 1,
+            last_token_end_column: 1,
         }
+    }
+
+    /// Advances a 1-based line/column position over `text` the way the scanner counts positions
+    fn position_after(line: u32, column: u32, text: &str) -> (u32, u32) {
+        text.chars().fold((line, column), |(line, column), c| {
+            if c == '\n' {
+                (line.saturating_add(1), 1)
+            } else {
+                (line, column.saturating_add(1))
+            }
+        })
     }
 
     /// Adds a token to the buffer
@@ -34,11 +50,20 @@ impl<'t> TokenBuffer<'t> {
         if self.last_token_location < new_start {
             use crate::lexer::location::Location;
             use crate::lexer::token::INVALID_TOKEN;
+            // The gap starts where the previous token ended and ends after its own text
+            let (end_line, end_column) = Self::position_after(
+                self.last_token_end_line,
+                self.last_token_end_column,
+                &input[self.last_token_location as usize..new_start as usize],
+            );
             let gap_location = Location {
+                start_line: self.last_token_end_line,
+                start_column: self.last_token_end_column,
+                end_line,
+                end_column,
                 start: self.last_token_location,
                 end: new_start,
                 file_name: token.location.file_name.clone(),
-                ..Location::default()
             };
             // Prevent overflow when last token was EOI with MAX token number
             let next_token_number = if self.last_token_number == TokenNumber::MAX {
@@ -58,6 +83,8 @@ impl<'t> TokenBuffer<'t> {
         }
         self.last_token_location = token.location.end;
         self.last_token_number = token.token_number;
+        self.last_token_end_line = token.location.end_line;
+        self.last_token_end_column = token.location.end_column;
         self.tokens.push(token);
     }
 
